@@ -144,6 +144,13 @@ func (am *Machine) ReplayOperationsLog(dkgIdentifier string) error {
 }
 
 func (am *Machine) ProcessOperation(operation client.Operation, storeOperation bool) (string, error) {
+	// Without the password (its lifetime may have ended since it was asked for) nothing can be
+	// decrypted or stored: refuse before the handler runs, so that the operation can simply be
+	// processed again with the password entered. Letting the handler fail would turn the missing
+	// password into an error report that cancels the round for every participant.
+	if am.SensitiveDataRemoved() {
+		return "", errors.New("the encryption password is not set (it may have expired): enter it and process the operation again")
+	}
 	resultOperation, err := am.GetOperationResult(operation)
 	if err != nil {
 		return "", fmt.Errorf(
